@@ -66,6 +66,108 @@ fail:
     return NULL;
 }
 
+/* TAB14 on a whole-node clone: the borrowed pointers are forgotten before the copy can leave or be released */
+static cJSON *good_clone(const cJSON *item, const internal_hooks * const hooks)
+{
+    cJSON *node = NULL;
+    if (item == NULL) { return NULL; }
+    node = cJSON_New_Item(hooks);
+    if (node == NULL) { return NULL; }
+    memcpy(node, item, sizeof(cJSON));
+    node->next = node->prev = NULL;
+    return node;
+}
+cJSON * good_dup_clone(const cJSON *item, size_t depth, cJSON_bool recurse)
+{
+    cJSON *newitem = NULL;
+    cJSON *child = NULL;
+    cJSON *next = NULL;
+    cJSON *newchild = NULL;
+    newitem = good_clone(item, &global_hooks);
+    if (!newitem) { goto fail; }
+    newitem->type &= ~cJSON_IsReference;
+    newitem->valuestring = NULL;
+    newitem->string = NULL;
+    newitem->child = NULL;
+    if (item->valuestring)
+    {
+        newitem->valuestring = (char*)cJSON_strdup((unsigned char*)item->valuestring, &global_hooks);
+        if (!newitem->valuestring) { goto fail; }
+    }
+    if (item->string)
+    {
+        newitem->string = (item->type & cJSON_StringIsConst) ? item->string : (char*)cJSON_strdup((unsigned char*)item->string, &global_hooks);
+        if (!newitem->string) { goto fail; }
+    }
+    if (!recurse) { return newitem; }
+    child = item->child;
+    while (child != NULL)
+    {
+        if (depth >= CJSON_CIRCULAR_LIMIT) { goto fail; }
+        newchild = good_dup_clone(child, depth + 1, 1);
+        if (!newchild) { goto fail; }
+        if (next != NULL) { next->next = newchild; newchild->prev = next; next = newchild; }
+        else { newitem->child = newchild; next = newchild; }
+        child = child->next;
+    }
+    if (newitem && newitem->child) { newitem->child->prev = newchild; }
+    return newitem;
+fail:
+    if (newitem != NULL) { cJSON_Delete(newitem); }
+    return NULL;
+}
+/* the child pointer of the clone is reset only after the non-recursive return; the valuestring is still the source's
+ * when the key copy fails and the half-built copy is released */
+static cJSON *bad_TAB14_clone(const cJSON *item, const internal_hooks * const hooks)
+{
+    cJSON *node = NULL;
+    if (item == NULL) { return NULL; }
+    node = cJSON_New_Item(hooks);
+    if (node == NULL) { return NULL; }
+    memcpy(node, item, sizeof(cJSON));
+    node->next = node->prev = NULL;
+    return node;
+}
+cJSON * dup_clone_late_reset(const cJSON *item, size_t depth, cJSON_bool recurse)
+{
+    cJSON *newitem = NULL;
+    cJSON *child = NULL;
+    cJSON *next = NULL;
+    cJSON *newchild = NULL;
+    newitem = bad_TAB14_clone(item, &global_hooks);
+    if (!newitem) { goto fail; }
+    newitem->type &= ~cJSON_IsReference;
+    newitem->string = NULL;
+    if (item->string)
+    {
+        newitem->string = (item->type & cJSON_StringIsConst) ? item->string : (char*)cJSON_strdup((unsigned char*)item->string, &global_hooks);
+        if (!newitem->string) { goto fail; }
+    }
+    newitem->valuestring = NULL;
+    if (item->valuestring)
+    {
+        newitem->valuestring = (char*)cJSON_strdup((unsigned char*)item->valuestring, &global_hooks);
+        if (!newitem->valuestring) { goto fail; }
+    }
+    if (!recurse) { return newitem; }
+    child = item->child;
+    newitem->child = NULL;
+    while (child != NULL)
+    {
+        if (depth >= CJSON_CIRCULAR_LIMIT) { goto fail; }
+        newchild = dup_clone_late_reset(child, depth + 1, 1);
+        if (!newchild) { goto fail; }
+        if (next != NULL) { next->next = newchild; newchild->prev = next; next = newchild; }
+        else { newitem->child = newchild; next = newchild; }
+        child = child->next;
+    }
+    if (newitem && newitem->child) { newitem->child->prev = newchild; }
+    return newitem;
+fail:
+    if (newitem != NULL) { cJSON_Delete(newitem); }
+    return NULL;
+}
+
 /* TAB3: unmasked switch, missing kinds */
 static int print_value(const cJSON * const item)
 {
